@@ -74,14 +74,14 @@ class Checker:
     def common(self, api, hin, hout, t0=None, tf=1, dm=None, extra=None):
         ex = dict(extra or {}, header_in=hin, header_out=hout)
         if tf is not None and not close(hout["tsamp"], hin["tsamp"] * tf, STOL):
-            self.fail(api, "tsamp", "tsamp is not the input's times the time-decimation factor", tfactor=tf, **ex)
+            self.fail(api, "tsamp", "tsamp is not the input's times the time-decimation factor", **dict(ex, tfactor=tf))
         if t0 is not None:
             want = hin["tstart"] + t0 * hin["tsamp"] / 86400.0
             if abs(hout["tstart"] - want) * 86400.0 > TTOL:
-                self.fail(api, "tstart", "tstart is not the input's advanced by start*tsamp (5 us)", first_input_sample=t0,
-                          error_seconds=(hout["tstart"] - want) * 86400.0, **ex)
+                self.fail(api, "tstart", "tstart is not the input's advanced by start*tsamp (5 us)",
+                          **dict(ex, first_input_sample=t0, error_seconds=(hout["tstart"] - want) * 86400.0))
         if dm is not None and not close(hout["dm"], dm, STOL):
-            self.fail(api, "dm", "dm does not record the DM that was applied", dm_applied=dm, **ex)
+            self.fail(api, "dm", "dm does not record the DM that was applied", **dict(ex, dm_applied=dm))
 
     def copy_labels(self, api, hin, hout, chans, extra=None):
         """output channel j was copied from input channel chans[j]"""
@@ -735,3 +735,784 @@ def run(R: vlib.Run):
     R.extra_cov["traces_validated_against_impl"] = nval
     R.extra_cov["correspondence_cases"] = len(corr) + len(idx_cases)
     return R
+
+
+# ---- the at-scale search ------------------------------------------------------------------------------------------------
+def _scale_data(seed, fi, nsamps, nchans, hi, dtype=np.uint8):
+    """the data of file number `fi` of scale(): nsamps x nchans integers 1 .. hi-1 (replay: same seed and arguments)"""
+    return np.random.default_rng([seed, fi]).integers(1, hi, (nsamps, nchans), dtype=dtype)
+
+
+def _locate(ref, out, prefer):
+    """an offset o with ref[o:o+len(out)] == out (along axis 0), `prefer` if it is one; affordable on millions of rows:
+    one comparison at `prefer`, otherwise candidates are filtered by the first rows and confirmed by one full comparison"""
+    n, m = len(out), len(ref) - len(out) + 1
+    if n == 0 or m <= 0 or ref.shape[1:] != out.shape[1:]:
+        return None
+    if 0 <= prefer < m and np.array_equal(ref[prefer:prefer + n], out):
+        return int(prefer)
+    cand = np.arange(m)
+    for j in range(min(n, 32)):
+        hit = ref[cand + j] == out[j]
+        if hit.ndim > 1:
+            hit = hit.reshape(len(cand), -1).all(1)
+        cand = cand[hit]
+        if cand.size == 0:
+            return None
+    for o in cand[:4]:
+        if np.array_equal(ref[o:o + n], out):
+            return int(o)
+    return None
+
+
+class ScaleChecker(Checker):
+    """the clauses of Checker with failure keys scale-<api>-<clause>; the label clauses are evaluated with arrays (same
+    arithmetic and tolerances as Checker: float64 fch1 + k*foff, FTOL relative) so that 2**16 channels stay affordable"""
+
+    def fail(self, api, clause, what, **kw):
+        self.R.fail(f"scale-{api}-{clause}", what + " [at scale]", dict(self.base, api=api, **kw))
+
+    def common(self, api, hin, hout, t0=None, tf=1, dm=None, extra=None):
+        # Checker.common, with the clause's own value merged into (not passed beside) the caller's parameters
+        ex = dict(extra or {}, header_in=hin, header_out=hout)
+        if tf is not None and not close(hout["tsamp"], hin["tsamp"] * tf, STOL):
+            self.fail(api, "tsamp", "tsamp is not the input's times the time-decimation factor", **dict(ex, tfactor=tf))
+        if t0 is not None:
+            want = hin["tstart"] + t0 * hin["tsamp"] / 86400.0
+            if abs(hout["tstart"] - want) * 86400.0 > TTOL:
+                self.fail(api, "tstart", "tstart is not the input's advanced by start*tsamp (5 us)",
+                          **dict(ex, first_input_sample=int(t0), error_seconds=(hout["tstart"] - want) * 86400.0))
+        if dm is not None and not close(hout["dm"], dm, STOL):
+            self.fail(api, "dm", "dm does not record the DM that was applied", **dict(ex, dm_applied=dm))
+
+    def copy_labels(self, api, hin, hout, chans, extra=None):
+        c = np.asarray(chans, dtype=np.int64)
+        out = hout["fch1"] + np.arange(len(c), dtype=np.int64) * hout["foff"]
+        inn = hin["fch1"] + c * hin["foff"]
+        bad = np.flatnonzero(np.abs(out - inn) > FTOL * np.maximum(np.abs(out), np.abs(inn)))
+        if bad.size:
+            j = int(bad[0])
+            self.fail(api, "label", "label of an output channel differs from that of the input channel it was copied from",
+                      out_channel=j, in_channel=int(c[j]), out_label=float(out[j]), in_label=float(inn[j]), n_bad=int(bad.size),
+                      **dict(extra or {}, header_in=hin, header_out=hout))
+            return False
+        return True
+
+    def sum_labels(self, api, hin, hout, factor, nout, extra=None, spacing=True):
+        ex = dict(extra or {}, header_in=hin, header_out=hout, factor=factor)
+        if spacing and not close(hout["foff"], hin["foff"] * factor, FTOL):
+            self.fail(api, "foff", "channel spacing is not the input's scaled by the factor", **ex)
+        j = np.arange(nout, dtype=np.int64)
+        a = hin["fch1"] + (j * factor) * hin["foff"]
+        b = hin["fch1"] + (j * factor + factor - 1) * hin["foff"]
+        lo, hi = np.minimum(a, b), np.maximum(a, b)
+        x = hout["fch1"] + j * hout["foff"]
+        slack = FTOL * np.maximum(np.abs(lo), np.abs(hi))
+        bad = np.flatnonzero(~((lo - slack <= x) & (x <= hi + slack)))
+        if bad.size:
+            k = int(bad[0])
+            self.fail(api, "label-span", "label of a summed/averaged channel lies outside the span of its inputs",
+                      out_channel=k, out_label=float(x[k]), span=[float(lo[k]), float(hi[k])], n_bad=int(bad.size), **ex)
+
+
+class _Src:
+    """one input file of scale(): its reader, header, and the data x of samples x0 .. x0+len(x) (the whole file when x0 == 0)"""
+
+    def __init__(self, fil, cfg, x, x0=0):
+        self.fil, self.cfg, self.x, self.x0 = fil, cfg, x, x0
+        self.hin = hdict(fil.header)
+        self.C, self.N, self.nbits = int(fil.header.nchans), int(fil.header.nsamples), int(fil.header.nbits)
+        self._tim = None
+
+    def rows(self, st, ns):
+        return self.x[st - self.x0:st - self.x0 + ns]
+
+    def tim(self):
+        if self._tim is None:
+            self._tim = self.x.sum(1, dtype=np.int32)
+        return self._tim
+
+
+def scale(R: vlib.Run):
+    """at-scale search (run when something no longer checks and no small failing input was found, and in the thorough tier).
+    The clauses of the property, evaluated by the same oracle as run(), on
+      L  2**24+70001 samples x 2 channels, 8 bit: whole file and sub-ranges that start above 2**16 / 2**22 / 2**24, gulps 16384 /
+         4097 / 70000, dispersion delays above 65536 samples, a time series of 2**24+ samples and its products, a chain of products;
+      H  a sparse file of 2**31+2**17 samples (data only in a window): start above 2**31 samples, byte offsets above 2**32;
+      W  66000 channels x 320 samples: channel indices around 2**15 / 2**16 by frequency (both spellings), factors >= 256,
+         hundreds of output files (more than one batch), 6600 sub-bands, a block of 2**24+ elements and its products;
+      B  256 channels x 80001 samples at 8 and 2 bits, 64 x 70000 at 32 bits (ascending band): blocks handed to the writer of
+         more than 2**20 / 2**22 / 2**24 elements, a block of 2**24+ elements read, transformed and written;
+      M  200001 samples x 2 channels, 8 bit, gulp 3: more than 65536 blocks.
+    Data are located in the input exactly as in run() (first at the requested offset, then anywhere); every case is a small dict."""
+    from sigpyproc import readers as _readers
+    from sigpyproc.header import Header
+    from sigpyproc.io import fileio
+    from sigpyproc.readers import FilReader
+    from sigpyproc.timeseries import TimeSeries
+
+    seed = R.seed + 808
+    d = os.path.join(vlib.SCRATCH, f"c08s_{os.getpid()}")
+    os.makedirs(d, exist_ok=True)
+    written = {}
+    orig_cwrite = fileio.FileWriter.cwrite
+
+    def counting_cwrite(self, arr):
+        nm = str(self.files[0])
+        written[nm] = written.get(nm, 0) + int(np.asarray(arr).size)
+        return orig_cwrite(self, arr)
+    orig_track = _readers.track
+
+    def source(fi, tag, N, C, nbits, hi, fch1, foff, tsamp, tstart, dtype=np.uint8):
+        x = _scale_data(seed, fi, N, C, hi, dtype)
+        path = filutil.write_fil(os.path.join(d, f"{tag}.fil"), x, nbits, fch1=fch1, foff=foff, tsamp=tsamp, tstart=tstart)
+        cfg = {"file": tag, "fch1": fch1, "foff": foff, "nchans": C, "nsamples": N, "nbits": nbits, "tsamp": tsamp, "tstart": tstart,
+               "data": f"props/c08.py _scale_data({seed}, {fi}, {N}, {C}, {hi}) written by filutil.write_fil; see scale()"}
+        R.tick(dict(cfg, api="FilReader"))
+        fil = FilReader(path)
+        hdrlen = fil.header.stream_info.entries[0].hdrlen
+        if (os.path.getsize(path) - hdrlen) * 8 != N * C * nbits or fil.header.nsamples != N:
+            # the writer is part of the implementation: the input itself already breaks the on-disk clause
+            R.fail("scale-input-ondisk-depth", "a file of nsamples x nchans elements written through Header.prep_outfile / FileWriter.cwrite "
+                   "does not hold nsamples x nchans x nbits bits [at scale]",
+                   dict(cfg, api="prep_outfile+cwrite", data_bytes=os.path.getsize(path) - hdrlen, header_nsamples=int(fil.header.nsamples)))
+            os.remove(path)
+            return None, path
+        return _Src(fil, cfg, x), path
+
+    def begin(S, api, **par):
+        """count the case; returns (case, checker); R.tick(case) goes immediately before the implementation call"""
+        case = dict(S.cfg, api=api, **par)
+        R.case(("scale", S.cfg["file"], api, json_key(par)), regime="scale")
+        return case, ScaleChecker(R, dict(S.cfg, **par))
+
+    def json_key(par):
+        return tuple(sorted((k, str(v)) for k, v in par.items()))
+
+    def reopen(path):
+        h = Header.from_sigproc(path)
+        hdrlen = h.stream_info.entries[0].hdrlen
+        return h, hdrlen, os.path.getsize(path) - hdrlen
+
+    def read_back(path, h, hdrlen):
+        """the data section in its on-disk type (8/16/32 bit files only), samples x channels"""
+        dt = {8: np.uint8, 16: np.uint16, 32: np.float32}.get(h.nbits)
+        if dt is None or h.nchans < 1:
+            return None
+        a = np.fromfile(path, dtype=dt, offset=hdrlen)
+        if a.size % h.nchans:
+            return None
+        return a.reshape(-1, h.nchans)
+
+    def out(name):
+        p = os.path.join(d, "o_" + name)
+        written.pop(p, None)
+        if os.path.exists(p):
+            os.remove(p)
+        return p
+
+    def check_file(ck, api, path, hin, spec, params):
+        """as in run(): spec = dict(t0, tf, dm, nch, labels=('copy', chans)|('sum', factor)|None, depth)"""
+        if not os.path.exists(path):
+            ck.fail(api, "missing", "output file was not written", **params)
+            return None
+        h, hdrlen, datalen = reopen(path)
+        ho = hdict(h)
+        nel = written.get(os.path.abspath(path), written.get(path))
+        ex = dict(params, elements_written=nel, data_bytes=datalen)
+        if nel is None:
+            R.red.append(f"harness: no cwrite recorded for {path}")
+            return None
+        if nel * ho["nbits"] != 8 * datalen:
+            ck.fail(api, "ondisk-depth", "nbits of the header is not the number of bits per written sample", header_out=ho, **ex)
+        elif ho["nchans"] < 1 or nel % ho["nchans"] or ho["nsamples"] * ho["nchans"] != nel:
+            ck.fail(api, "nsamples", "nsamples x nchans of the re-opened header is not the number of samples written", header_out=ho, **ex)
+        if spec.get("nch") is not None and ho["nchans"] != spec["nch"]:
+            ck.fail(api, "nchans", "nchans of the header differs from the channels written per sample", header_out=ho, expected=spec["nch"], **ex)
+        if spec.get("depth") is not None and ho["nbits"] != spec["depth"]:
+            ck.fail(api, "nbits", "nbits of the header differs from the depth the API writes", header_out=ho, expected=spec["depth"], **ex)
+        ck.common(api, hin, ho, t0=spec.get("t0"), tf=spec.get("tf", 1), dm=spec.get("dm"), extra=params)
+        lab = spec.get("labels")
+        if lab and lab[0] == "copy":
+            ck.copy_labels(api, hin, ho, lab[1], extra=params)
+        elif lab and lab[0] == "sum":
+            ck.sum_labels(api, hin, ho, lab[1], ho["nchans"], extra=params)
+        return h, hdrlen, ho
+
+    def delays_of(S, dm):
+        dl = S.fil.header.get_dmdelays(dm).astype(int)
+        return dl, int(dl.max()), int(dl.min())
+
+    def pick_dm(S, lo, hi):
+        """a DM whose largest delay lies in [lo, hi) samples (descending bands), else None"""
+        for v in np.geomspace(0.05, 5000.0, 400):
+            dl, md, mn = delays_of(S, float(v))
+            if mn >= 0 and lo <= md < hi:
+                return float(v)
+        return None
+
+    def series(ck, api, kk, t, hin, t0, dm, labels, extra=None):
+        """a TimeSeries product: shape, tsamp/tstart/dm, labels"""
+        if kk != "ok":
+            ck.fail(api, "exception", f"{api} raised", exc=t, **(extra or {}))
+            return None
+        ho = hdict(t.header)
+        if len(t.data) != ho["nsamples"] or ho["nchans"] != 1:
+            ck.fail(api, "shape", "nsamples/nchans differ from the data's shape", length=len(t.data), header_out=ho, **(extra or {}))
+        ck.common(api, hin, ho, t0=t0(t), dm=dm, extra=extra)
+        if labels is not None:
+            labels(ho)
+        return ho
+
+    def streams(S, st, ns, gulp, dms, none=False, chans=None):
+        """collapse, bandpass, read_chan, dedisperse on one (start, nsamps, gulp); returns the collapse product"""
+        fil, hin, C = S.fil, S.hin, S.C
+        kw = dict(gulp=gulp, start=st, quiet=True) if none else dict(gulp=gulp, start=st, nsamps=ns, quiet=True)
+        nsel = S.N - st if none else ns
+        par = dict(start=st, nsamps=None if none else ns, gulp=gulp)
+        keep = None
+        # collapse
+        case, ck = begin(S, "collapse", **par)
+        R.tick(case)
+        kk, t = call(fil.collapse, **kw)
+
+        def t0_collapse(t):
+            o = _locate(S.tim(), np.asarray(t.data), st - S.x0)
+            return st if o is None else o + S.x0
+        if series(ck, "collapse", kk, t, hin, t0_collapse, 0.0, lambda ho: ck.sum_labels("collapse", hin, ho, C, 1, spacing=False)):
+            keep = t
+        # bandpass (a spectrum held in a TimeSeries: only the shape clause applies)
+        case, ck = begin(S, "bandpass", **par)
+        R.tick(case)
+        kk, t = call(fil.bandpass, **kw)
+        if kk != "ok":
+            ck.fail("bandpass", "exception", "bandpass raised", exc=t)
+        else:
+            ho = hdict(t.header)
+            if len(t.data) != ho["nsamples"] or ho["nchans"] != 1:
+                ck.fail("bandpass", "shape", "nsamples/nchans differ from the data's shape", length=len(t.data), header_out=ho)
+        # read_chan
+        for ich in (chans if chans is not None else [C - 1]):
+            case, ck = begin(S, "read_chan", ichan=ich, **par)
+            R.tick(case)
+            kk, t = call(fil.read_chan, ich, **kw)
+            src = {}
+
+            def t0_chan(t):
+                got = np.asarray(t.data)
+                o = _locate(S.x[:, ich], got, st - S.x0)
+                src["c"] = ich
+                if o is None and len(got) == nsel:       # another channel at the requested offset?
+                    hits = np.flatnonzero((S.rows(st, nsel) == got[:, None]).all(0)) if nsel * C <= (1 << 25) else []
+                    if len(hits):
+                        src["c"], o = int(hits[0]), st - S.x0
+                return st if o is None else o + S.x0
+            series(ck, "read_chan", kk, t, hin, t0_chan, 0.0,
+                   lambda ho: ck.copy_labels("read_chan", hin, ho, [src["c"]], extra={"ichan": ich}), extra={"ichan": ich})
+        # dedisperse
+        for dm in dms:
+            if dm is None:
+                continue
+            dl, md, mn = delays_of(S, dm)
+            if mn < 0 or md >= nsel - 1:
+                continue
+            case, ck = begin(S, "dedisperse", dm=dm, max_delay=md, **par)
+            R.tick(case)
+            kk, t = call(fil.dedisperse, dm, **kw)
+
+            def t0_dd(t):
+                n = len(S.x) - md
+                ref = np.zeros(n, dtype=np.int32)
+                for c in range(C):
+                    ref += S.x[dl[c]:dl[c] + n, c]
+                o = _locate(ref, np.asarray(t.data), st - S.x0)
+                return st if o is None else o + S.x0
+            series(ck, "dedisperse", kk, t, hin, t0_dd, dm, lambda ho: ck.sum_labels("dedisperse", hin, ho, C, 1, spacing=False),
+                   extra={"dm": dm, "max_delay": md})
+        return keep
+
+    def files(S, st, ns, gulp, tf, ff, chs, bands, nbo, nsub, dm, zerodm=True, only=None):
+        """every transform that writes a file, on one (start, nsamps, gulp); bands = (chanstart, nbands, chanpersub)"""
+        fil, hin, C, nbits = S.fil, S.hin, S.C, S.nbits
+        par = dict(start=st, nsamps=ns, gulp=gulp)
+        kw = dict(gulp=gulp, start=st, nsamps=ns, quiet=True)
+
+        def want(api):
+            return only is None or api in only
+
+        def simple(api, fn, args, spec, params):
+            case, ck = begin(S, api, **dict(par, **params))
+            p = out(api + ".fil")
+            R.tick(case)
+            kk, r = call(fn, *args(p), **kw)
+            if kk != "ok":
+                ck.fail(api, "exception", f"{api} raised", exc=r, **params)
+            else:
+                check_file(ck, api, p, hin, spec, params)
+            if os.path.exists(p):
+                os.remove(p)
+
+        allc = np.arange(C)
+        if want("invert_freq"):
+            simple("invert_freq", fil.invert_freq, lambda p: (p,), dict(t0=st, nch=C, depth=nbits, labels=("copy", allc[::-1])), {})
+        if want("apply_channel_mask"):
+            mask = np.zeros(C, dtype=bool); mask[C // 2] = True
+            simple("apply_channel_mask", fil.apply_channel_mask, lambda p: (mask, 0, p), dict(t0=st, nch=C, depth=nbits, labels=("copy", allc)), {})
+        if want("downsample"):
+            simple("downsample", fil.downsample, lambda p: (tf, ff, p), dict(t0=st, tf=tf, nch=C // ff, depth=nbits, labels=("sum", ff)),
+                   dict(tfactor=tf, ffactor=ff))
+        if want("requantize") and nbo:
+            simple("requantize", fil.requantize, lambda p: (nbo, p), dict(t0=st, nch=C, depth=nbo, labels=("copy", allc)), dict(nbits_out=nbo))
+        if want("remove_zerodm") and zerodm:
+            simple("remove_zerodm", fil.remove_zerodm, lambda p: (p,), dict(t0=st, nch=C, depth=nbits, labels=("copy", allc)), {})
+        if want("subband") and dm is not None:
+            dl, md, mn = delays_of(S, dm)
+            if mn >= 0 and md < ns - 1:
+                simple("subband", fil.subband, lambda p: (dm, nsub, p), dict(t0=st, dm=dm, nch=nsub, depth=32, labels=("sum", C // nsub)),
+                       dict(dm=dm, nsub=nsub, max_delay=md))
+        # extract_samps: the rows written are located in the input
+        if want("extract_samps"):
+            case, ck = begin(S, "extract_samps", **par)
+            p = out("samps.fil")
+            R.tick(case)
+            kk, r = call(fil.extract_samps, st, ns, p, gulp=gulp, quiet=True)
+            if kk != "ok":
+                ck.fail("extract_samps", "exception", "extract_samps raised", exc=r)
+            else:
+                t0 = st
+                hh = reopen(p)
+                back = read_back(p, hh[0], hh[1])
+                if back is not None and back.shape[1] == C:
+                    o = _locate(S.x, back, st - S.x0)
+                    t0 = st if o is None else o + S.x0
+                del back
+                check_file(ck, "extract_samps", p, hin, dict(t0=t0, nch=C, depth=nbits, labels=("copy", allc)), {})
+            if os.path.exists(p):
+                os.remove(p)
+        # extract_chans
+        if want("extract_chans") and chs is not None:
+            case, ck = begin(S, "extract_chans", chans=(chs if len(chs) <= 8 else f"{len(chs)} channels {chs[:3]}..{chs[-3:]}"), **par)
+            basep = os.path.join(d, "o_ch")
+            for c in chs:
+                written.pop(f"{basep}_chan{c:04d}.tim", None)
+            R.tick(case)
+            kk, r = call(fil.extract_chans, chs, basep, gulp=gulp, start=st, nsamps=ns, quiet=True)
+            if kk != "ok":
+                ck.fail("extract_chans", "exception", "extract_chans raised", exc=r, chans=chs[:8])
+            else:
+                if len(r) != len(chs):
+                    ck.fail("extract_chans", "missing", "fewer files than requested channels", files=len(r), requested=len(chs))
+                sel = S.rows(st, ns)
+                for c, p in zip(chs, r):
+                    c0, t0 = c, st
+                    if os.path.exists(p):
+                        hh = reopen(p)
+                        back = read_back(p, hh[0], hh[1])
+                        if back is not None and back.shape[1] == 1:
+                            o = _locate(S.x[:, c], back[:, 0], st - S.x0)
+                            if o is not None:
+                                t0 = o + S.x0
+                            elif len(back) == len(sel) and sel.size <= (1 << 25):
+                                hits = np.flatnonzero((sel == back).all(0))
+                                if len(hits):
+                                    c0 = int(hits[0])
+                    check_file(ck, "extract_chans", p, hin, dict(t0=t0, nch=1, depth=32, labels=("copy", [c0])), dict(chan=c))
+                for p in r:
+                    if os.path.exists(p):
+                        os.remove(p)
+        # extract_bands
+        if want("extract_bands") and bands is not None:
+            cstart, nb, cps = bands
+            case, ck = begin(S, "extract_bands", chanstart=cstart, nchans_sel=nb * cps, chanpersub=cps, **par)
+            basep = os.path.join(d, "o_bd")
+            for i in range(nb):
+                written.pop(f"{basep}_sub{i:02d}.fil", None)
+            R.tick(case)
+            kk, r = call(fil.extract_bands, cstart, nb * cps, cps, basep, gulp=gulp, start=st, nsamps=ns, quiet=True)
+            if kk != "ok":
+                ck.fail("extract_bands", "exception", "extract_bands raised", exc=r)
+            else:
+                if len(r) != nb:
+                    ck.fail("extract_bands", "missing", "fewer files than sub-bands", files=len(r), requested=nb)
+                sel = S.rows(st, ns)
+                for i, p in enumerate(r):
+                    c0 = cstart + i * cps
+                    if os.path.exists(p):
+                        hh = reopen(p)
+                        back = read_back(p, hh[0], hh[1])
+                        if back is not None and back.shape == (ns, cps) and not np.array_equal(back, sel[:, c0:c0 + cps]):
+                            first = np.flatnonzero((sel == back[:, :1]).all(0))       # channels equal to the file's first column
+                            hits = [int(cc) for cc in first[:8] if cc + cps <= C and np.array_equal(back, sel[:, cc:cc + cps])]
+                            if hits:
+                                c0 = hits[0]
+                    check_file(ck, "extract_bands", p, hin, dict(t0=st, nch=cps, depth=nbits, labels=("copy", np.arange(c0, c0 + cps))),
+                               dict(chanstart=cstart, chanpersub=cps, band=i))
+                for p in r:
+                    if os.path.exists(p):
+                        os.remove(p)
+
+    def blocks(S, st, ns, ff, tf, dm, nfin, dmt=True, norm=True, chain=0):
+        """read_block(st, ns) and every product of the block"""
+        fil, hin, C = S.fil, S.hin, S.C
+        par = dict(start=st, nsamps=ns)
+        case, ck = begin(S, "read_block", **par)
+        R.tick(case)
+        kk, blk = call(fil.read_block, st, ns)
+        if kk != "ok":
+            ck.fail("read_block", "exception", "read_block raised", exc=blk)
+            return
+        bh = hdict(blk.header)
+        if blk.data.shape != (bh["nchans"], bh["nsamples"]):
+            ck.fail("read_block", "shape", "nchans/nsamples of the header differ from the data's shape", shape=list(blk.data.shape), header_out=bh)
+        o = _locate(S.x, blk.data.T, st - S.x0)
+        ck.common("read_block", hin, bh, t0=st if o is None else o + S.x0)
+        ck.copy_labels("read_block", hin, bh, np.arange(C))
+        par = dict(block_start=st, block_nsamps=int(blk.data.shape[1]))
+        # downsample
+        case, ck = begin(S, "block.downsample", ffactor=ff, tfactor=tf, **par)
+        R.tick(case)
+        kk, b = call(blk.downsample, ff, tf)
+        if kk != "ok":
+            ck.fail("block.downsample", "exception", "FilterbankBlock.downsample raised", exc=b, ffactor=ff, tfactor=tf)
+        else:
+            ho = hdict(b.header)
+            if b.data.shape != (ho["nchans"], ho["nsamples"]):
+                ck.fail("block.downsample", "shape", "nchans/nsamples differ from the data's shape", shape=list(b.data.shape), header_out=ho)
+            ck.common("block.downsample", bh, ho, t0=0, tf=tf, extra=dict(ffactor=ff, tfactor=tf))
+            ck.sum_labels("block.downsample", bh, ho, ff, ho["nchans"], extra=dict(ffactor=ff, tfactor=tf))
+        b = None
+        if chain:       # a history of products: `chain` successive downsample(2, 2), then dedisperse and get_tim
+            case, ck = begin(S, "block.chain", steps=chain, **par)
+            u, fac = blk, 1
+            for i in range(chain):
+                if u.data.shape[0] % 2:
+                    break
+                R.tick(dict(case, step=i))
+                kk, v = call(u.downsample, 2, 2)
+                if kk != "ok":
+                    ck.fail("block.chain", "exception", "FilterbankBlock.downsample raised in a chain of products", exc=v, step=i)
+                    break
+                u, fac = v, fac * 2
+                ho = hdict(u.header)
+                if u.data.shape != (ho["nchans"], ho["nsamples"]):
+                    ck.fail("block.chain", "shape", "nchans/nsamples differ from the data's shape after a chain of products", step=i,
+                            shape=list(u.data.shape), header_out=ho)
+                    break
+                ck.common("block.chain", bh, ho, t0=0, tf=fac, extra=dict(step=i))
+                ck.sum_labels("block.chain", bh, ho, fac, ho["nchans"], extra=dict(step=i))
+            else:
+                R.tick(dict(case, step="dedisperse"))
+                kk, v = call(u.dedisperse, dm)
+                if kk == "ok":
+                    R.tick(dict(case, step="get_tim"))
+                    kk, v = call(v.get_tim)
+                if kk != "ok":
+                    ck.fail("block.chain", "exception", "dedisperse / get_tim raised in a chain of products", exc=v)
+                else:
+                    ho = hdict(v.header)
+                    if len(v.data) != ho["nsamples"] or ho["nchans"] != 1:
+                        ck.fail("block.chain", "shape", "nsamples/nchans differ from the data's shape after a chain of products", length=len(v.data), header_out=ho)
+                    ck.common("block.chain", bh, ho, t0=0, tf=fac, dm=dm, extra=dict(step="get_tim"))
+                    ck.sum_labels("block.chain", bh, ho, C, 1, spacing=False, extra=dict(step="get_tim"))
+            u = v = None
+        if norm:
+            case, ck = begin(S, "block.normalise", **par)
+            R.tick(case)
+            kk, b = call(blk.normalise)
+            if kk == "ok" and b.data.shape != (b.header.nchans, b.header.nsamples):
+                ck.fail("block.normalise", "shape", "nchans/nsamples differ from the data's shape", shape=list(b.data.shape))
+            b = None
+        case, ck = begin(S, "block.pad_samples", nsamps_final=nfin, **par)
+        R.tick(case)
+        kk, b = call(blk.pad_samples, nfin, (nfin - blk.data.shape[1]) // 2)
+        if kk != "ok":
+            ck.fail("block.pad_samples", "exception", "pad_samples raised", exc=b)
+        elif b.data.shape != (b.header.nchans, b.header.nsamples):
+            ck.fail("block.pad_samples", "shape", "nchans/nsamples differ from the data's shape", shape=list(b.data.shape))
+        b = None
+        if dmt:
+            case, ck = begin(S, "block.dmt_transform", **par)
+            R.tick(case)
+            kk, b = call(blk.dmt_transform, 20.0, 4)
+            if kk == "ok" and b.data.shape[1] != b.header.nsamples:
+                ck.fail("block.dmt_transform", "shape", "nsamples differs from the data's length", shape=list(b.data.shape))
+            b = None
+        case, ck = begin(S, "block.dedisperse", dm=dm, **par)
+        R.tick(case)
+        kk, bd = call(blk.dedisperse, dm)
+        blk = None
+        if kk != "ok":
+            ck.fail("block.dedisperse", "exception", "FilterbankBlock.dedisperse raised", exc=bd, dm=dm)
+            return
+        ho = hdict(bd.header)
+        if bd.data.shape != (ho["nchans"], ho["nsamples"]):
+            ck.fail("block.dedisperse", "shape", "nchans/nsamples differ from the data's shape", shape=list(bd.data.shape), header_out=ho)
+        if not (close(float(bd.dm), dm, STOL) or close(ho["dm"], dm, STOL)):
+            ck.fail("block.dedisperse", "dm", "neither the block nor its header records the DM applied", block_dm=float(bd.dm), header_out=ho, dm=dm)
+        ck.common("block.dedisperse", bh, ho, t0=0, extra=dict(dm=dm))
+        ck.copy_labels("block.dedisperse", bh, ho, np.arange(C))
+        case, ck = begin(S, "block.get_tim", dm=dm, **par)
+        R.tick(case)
+        kk, t = call(bd.get_tim)
+        series(ck, "block.get_tim", kk, t, bh, lambda t: 0, dm, lambda ho: ck.sum_labels("block.get_tim", bh, ho, C, 1, spacing=False), extra=dict(dm=dm))
+        t = None
+        case, ck = begin(S, "block.to_file", dm=dm, **par)
+        p = out("blk.fil")
+        R.tick(case)
+        kk, r = call(bd.to_file, p)
+        if kk != "ok":
+            ck.fail("block.to_file", "exception", "to_file raised", exc=r)
+        else:
+            check_file(ck, "block.to_file", p, hdict(bd.header), dict(t0=0, dm=dm, nch=C, depth=32, labels=("copy", np.arange(C))), dict(dm=dm))
+        if os.path.exists(p):
+            os.remove(p)
+
+    def ts_products(S, t, of, facs, npad, accel, chain=0):
+        """products of a time series; `chain`: that many successive halvings, then pad and resample (a long history)"""
+        th = hdict(t.header)
+        par = dict(timeseries_of=of, length=len(t.data))
+        for fac in facs:
+            case, ck = begin(S, "ts.downsample", factor=fac, **par)
+            R.tick(case)
+            kk, u = call(t.downsample, fac)
+            if kk != "ok":
+                ck.fail("ts.downsample", "exception", "TimeSeries.downsample raised", exc=u, factor=fac)
+            else:
+                ho = hdict(u.header)
+                if len(u.data) != ho["nsamples"]:
+                    ck.fail("ts.downsample", "shape", "nsamples differs from the data's length", length=len(u.data), header_out=ho)
+                ck.common("ts.downsample", th, ho, t0=0, tf=fac, dm=th["dm"], extra=dict(factor=fac))
+            u = None
+        for nm, fn, args in (("pad", t.pad, (npad,)), ("resample", t.resample, (accel,))):
+            case, ck = begin(S, "ts." + nm, arg=args[0], **par)
+            R.tick(case)
+            kk, u = call(fn, *args)
+            if kk != "ok":
+                ck.fail("ts." + nm, "exception", f"TimeSeries.{nm} raised", exc=u)
+            else:
+                if len(u.data) != u.header.nsamples:
+                    ck.fail("ts." + nm, "shape", "nsamples differs from the data's length", length=len(u.data))
+                ck.common("ts." + nm, th, hdict(u.header), t0=0, tf=1)
+            u = None
+        case, ck = begin(S, "ts.to_tim", **par)
+        p = out("ts.tim")
+        R.tick(case)
+        kk, r = call(t.to_tim, p)
+        if kk != "ok":
+            ck.fail("ts.to_tim", "exception", "to_tim raised", exc=r)
+        else:
+            res = check_file(ck, "ts.to_tim", p, th, dict(t0=0, dm=th["dm"], nch=1, depth=32), {})
+            if res:
+                R.tick(dict(case, api="TimeSeries.from_tim"))
+                kk, u = call(TimeSeries.from_tim, p)
+                if kk != "ok" or len(u.data) != len(t.data):
+                    ck.fail("ts.to_tim", "reread", "from_tim(to_tim(ts)) has a different length", got=(u if kk != "ok" else len(u.data)))
+                u = None
+        if os.path.exists(p):
+            os.remove(p)
+        if chain:
+            case, ck = begin(S, "ts.chain", halvings=chain, **par)
+            u, tfac, hist = t, 1, []
+            for i in range(chain):
+                R.tick(dict(case, step=i))
+                kk, v = call(u.downsample, 2)
+                if kk != "ok":
+                    ck.fail("ts.chain", "exception", "TimeSeries.downsample raised in a chain of products", exc=v, step=i)
+                    break
+                u, tfac = v, tfac * 2
+                hist.append("downsample(2)")
+                ho = hdict(u.header)
+                if len(u.data) != ho["nsamples"]:
+                    ck.fail("ts.chain", "shape", "nsamples differs from the data's length after a chain of products", step=i, length=len(u.data), header_out=ho)
+                    break
+                ck.common("ts.chain", th, ho, t0=0, tf=tfac, dm=th["dm"], extra=dict(step=i, history=len(hist)))
+            else:
+                for nm, args in (("pad", (1001,)), ("resample", (-accel,)), ("pad", (7,))):
+                    R.tick(dict(case, step=nm))
+                    kk, v = call(getattr(u, nm), *args)
+                    if kk != "ok":
+                        ck.fail("ts.chain", "exception", f"TimeSeries.{nm} raised in a chain of products", exc=v)
+                        break
+                    u = v
+                    ho = hdict(u.header)
+                    if len(u.data) != ho["nsamples"]:
+                        ck.fail("ts.chain", "shape", "nsamples differs from the data's length after a chain of products", step=nm, length=len(u.data), header_out=ho)
+                    ck.common("ts.chain", th, ho, t0=0, tf=tfac, dm=th["dm"], extra=dict(step=nm))
+
+    def by_frequency(S, ks, st, ns):
+        """read_block requested by the frequency of channel k (both spellings), and requests running past the last channel"""
+        fil, hin, C = S.fil, S.hin, S.C
+        fch1, foff = S.cfg["fch1"], S.cfg["foff"]
+        cf32 = fil.header.chan_freqs
+        xs = S.rows(st, ns)
+        for k in ks:
+            for spelling, f in (("fch1+k*foff", fch1 + k * foff), ("chan_freqs[k]", float(cf32[k]))):
+                n = min(3, C - k)
+                case, ck = begin(S, "read_block", start=st, nsamps=ns, channel=k, nchans_req=n, requested=f, spelling=spelling)
+                R.tick(case)
+                kk, b = call(fil.read_block, st, ns, fch1=f, nchans=n)
+                if kk != "ok":
+                    ck.fail("read_block", "refused", "a block requested by the frequency of an existing channel is refused", exc=b,
+                            foff_sign=("+" if foff > 0 else "-"))
+                    continue
+                ho = hdict(b.header)
+                if b.data.shape != (ho["nchans"], ho["nsamples"]):
+                    ck.fail("read_block", "shape", "nchans/nsamples of the header differ from the data's shape", shape=list(b.data.shape), header_out=ho)
+                rows = [np.flatnonzero((xs == b.data[j][:, None]).all(0)) if b.data.shape[1] == len(xs) else [] for j in range(b.data.shape[0])]
+                if any(len(r) != 1 for r in rows):
+                    ck.fail("read_block", "rows", "returned rows are not rows of the input at the requested samples", shape=list(b.data.shape))
+                    continue
+                src = [int(r[0]) for r in rows]
+                if not close(f, label(hin, src[0]), FTOL):
+                    ck.fail("read_block", "freq-index", "requesting a channel's frequency returned a different channel",
+                            returned_first_channel=src[0], its_label=label(hin, src[0]))
+                ck.copy_labels("read_block", hin, ho, src)
+                ck.common("read_block", hin, ho, t0=st)
+        for k, n in ((C - 2, 5), (C - 1, 2)):
+            case, ck = begin(S, "read_block", start=st, nsamps=ns, channel=k, nchans_req=n, overrun=True)
+            R.tick(case)
+            kk, b = call(fil.read_block, st, ns, fch1=fch1 + k * foff, nchans=n)
+            if kk == "ok" and b.data.shape[0] != b.header.nchans:
+                ck.fail("read_block", "chan-overrun", "a request past the last channel returns a container whose nchans differs from its rows",
+                        shape=list(b.data.shape), header_nchans=int(b.header.nchans))
+
+    def dedisp_block(S, st, ns, dm):
+        fil, hin, C = S.fil, S.hin, S.C
+        delays = fil.header.get_dmdelays(dm)
+        if st + int(delays.min()) < 0 or st + int(delays.max()) + ns > S.N:
+            return
+        case, ck = begin(S, "read_dedisp_block", start=st, nsamps=ns, dm=dm)
+        R.tick(case)
+        kk, b = call(fil.read_dedisp_block, st, ns, dm)
+        if kk != "ok":
+            ck.fail("read_dedisp_block", "exception", "read_dedisp_block raised", exc=b)
+            return
+        ho = hdict(b.header)
+        if b.data.shape != (ho["nchans"], ho["nsamples"]):
+            ck.fail("read_dedisp_block", "shape", "nchans/nsamples of the header differ from the data's shape", shape=list(b.data.shape), header_out=ho)
+        ck.common("read_dedisp_block", hin, ho, t0=st)
+        ck.copy_labels("read_dedisp_block", hin, ho, np.arange(C))
+        if not (close(float(b.dm), dm, STOL) or close(ho["dm"], dm, STOL)):
+            ck.fail("read_dedisp_block", "dm", "neither the block nor its header records the DM applied", block_dm=float(b.dm), header_out=ho)
+
+    def with_source(body, *args, **kw):
+        S, path = source(*args, **kw)
+        try:
+            if S is not None:
+                body(S)
+        finally:
+            if os.path.exists(path):
+                os.remove(path)
+
+    # ---- L: 2**24 + 70001 samples x 2 channels -----------------------------------------------------------------------------------
+    def long_file(S):
+        N = S.N
+        dm_s, dm_l = pick_dm(S, 900, 1500), pick_dm(S, 66000, 75000)
+        ts = streams(S, 0, N, 16384, [dm_l], none=True, chans=[1])
+        if ts is not None:
+            ts_products(S, ts, "collapse", [3, 65537], 70001, 25.0, chain=14)
+        ts = None
+        for st, ns, gulp in (((1 << 24) + 5, 65000, 4097), (65537, (1 << 20) + 3, 70000), ((1 << 22) - 1, (1 << 18) + 1, 16384)):
+            streams(S, st, ns, gulp, [dm_s, dm_l], chans=[0])
+            files(S, st, ns, gulp, 3, 2, [1], (0, 1, 2), 16, 1, dm_s)
+        for st, ns, gulp in ((3, 1 << 16, 16384), (1 << 16, (1 << 22) + 1, 65536), (65, 1 << 24, 1 << 20)):   # lengths at 2**16, 2**24
+            streams(S, st, ns, gulp, [dm_s], chans=[1])
+            files(S, st, ns, gulp, 2, 1, [0], None, None, 2, dm_s, only=("extract_samps", "downsample", "extract_chans", "subband"))
+        files(S, 0, N, 70000, 300, 1, [0], (0, 1, 2), None, 2, dm_l, zerodm=False,
+              only=("downsample", "extract_samps", "extract_chans", "subband", "invert_freq"))
+        blocks(S, (1 << 24) + 11, 66000, 2, 300, dm_s, 66000 + 4099)
+        blocks(S, N - 65537, 65537, 1, 65537, dm_s, 1 << 17, dmt=False, norm=False)
+        dedisp_block(S, (1 << 24) + 11, 3000, dm_s)
+
+    # ---- H: sparse file of 2**31 + 2**17 samples x 2 channels; data only in a window around sample 2**31 ---------------------------
+    def huge_file():
+        N, C, w0, wl = (1 << 31) + (1 << 17), 2, (1 << 31) - 2000, 100000
+        xw = _scale_data(seed, 1, wl, C, 64)
+        path = os.path.join(d, "H.fil")
+        hd = dict(fch1=1400.0, foff=-1.0 / 3.0, tsamp=6.4e-5, tstart=51544.999999)
+        try:
+            w = Header(filename="H.fil", data_type="filterbank", nchans=C, nbits=8, nsamples=N, **hd).prep_outfile(path)
+            w.close()
+            hl = os.path.getsize(path)
+            try:
+                os.truncate(path, hl + N * C)
+                with open(path, "r+b") as fh:
+                    fh.seek(hl + w0 * C)
+                    fh.write(xw.tobytes())
+            except OSError as e:
+                R.notes.append(f"at-scale search: the 2**31-sample sparse file could not be made ({e}); skipped")
+                return
+            if os.stat(path).st_blocks * 512 > (64 << 20):
+                R.notes.append("at-scale search: the scratch file system does not keep sparse files sparse; the 2**31-sample file was skipped")
+                return
+            cfg = dict(file="H", nchans=C, nsamples=N, nbits=8, **hd,
+                       data=f"props/c08.py scale() huge_file: header + zeros, samples {w0}..{w0 + wl} = _scale_data({seed}, 1, {wl}, {C}, 64)")
+            R.tick(dict(cfg, api="FilReader"))
+            S = _Src(FilReader(path), cfg, xw, w0)
+            dm_h = pick_dm(S, 40, 200)
+            for st, ns, gulp in (((1 << 31) + 5, 40000, 16384), ((1 << 31) - 1000, 70001, 70000)):
+                streams(S, st, ns, gulp, [dm_h], chans=[1])
+                files(S, st, ns, gulp, 3, 2, [0, 1], (0, 1, 2), 32, 2, dm_h, zerodm=False)
+            blocks(S, (1 << 31) + 7, 5000, 2, 5, dm_h, 6000)
+            # read_dedisp_block is left out here: on the unchanged tree it raises OverflowError for start >= 2**31 - max delay
+            # (int32 delays + a Python int above the int32 range, NumPy 2 promotion), so there is no header to examine;
+            # remove_zerodm is left out because it reads the whole file for its bandpass
+        finally:
+            if os.path.exists(path):
+                os.remove(path)
+
+    # ---- W: 66000 channels x 320 samples ---------------------------------------------------------------------------------------------
+    def wide_file(S):
+        C, N = S.C, S.N
+        by_frequency(S, [0, 1, 255, 256, 32767, 32768, 32769, 65535, 65536, 65537, C - 1], 5, 16)
+        dm_w = pick_dm(S, 40, 80)
+        hi_ch = [65535, 65536, 65537, C - 1]
+        streams(S, 0, N, 16384, [dm_w], none=True, chans=hi_ch[:2])
+        streams(S, 17, 290, 100, [dm_w], chans=hi_ch[2:])
+        chs = sorted(set(int(c) for c in np.random.default_rng([seed, 20]).choice(C, 246, replace=False)) | set(hi_ch))
+        files(S, 17, 290, 100, 2, 300, chs, (64800, 300, 4), 16, 6600, dm_w)      # 250 .tim files, 300 sub-band files: two batches each
+        files(S, 0, N, 16384, 3, C, None, (0, 2, C // 2), None, 1, dm_w, only=("downsample", "extract_bands", "subband"))
+        dedisp_block(S, 3, 200, dm_w)
+        blocks(S, 0, N, 300, 2, dm_w, N + 77)
+
+    # ---- B: big blocks handed to the writer ------------------------------------------------------------------------------------------
+    def big_blocks(gulps, exact, blk):
+        def body(S):
+            C, N, nbits = S.C, S.N, S.nbits
+            dm_b = pick_dm(S, 300, 900)
+            for gi, gulp in enumerate(gulps):
+                st, ns = (777, N - 1000) if gi else (0, N)
+                streams(S, st, ns, gulp, [dm_b], chans=[C - 1])
+                files(S, st, ns, gulp, (7, 2, 300)[gi], (4, 2, 64)[gi], [3, C - 1], (C // 2, 2, C // 4), (16, 32, 8)[gi] if nbits != 2 else 8,
+                      (4, C, 1)[gi], dm_b)
+            for gulp in exact:      # blocks of exactly 2**20 / 2**22 / 2**24 elements
+                streams(S, 5, N - 9, gulp, [dm_b], chans=[0])
+                files(S, 5, N - 9, gulp, 2, 2, [1], None, 8 if nbits != 8 else 32, 2, dm_b,
+                      only=("invert_freq", "extract_samps", "downsample", "requantize", "subband", "extract_chans"))
+            if blk:
+                blocks(S, 1001, blk, 4, 7, dm_b, blk + 1001, dmt=False, chain=5)
+            if S.cfg["foff"] > 0:
+                by_frequency(S, [0, 1, C // 2, C - 1], 65537, 16)
+        return body
+
+    # ---- M: more than 65536 blocks -----------------------------------------------------------------------------------------------------
+    def many_blocks(S):
+        N = S.N
+        streams(S, 0, N, 3, [], none=True, chans=[1])
+        files(S, 1, N - 1, 3, 3, 2, [1], (0, 1, 2), 32, 1, None, only=("extract_samps", "downsample", "invert_freq", "extract_chans", "extract_bands"))
+        files(S, 12345, 100000, 7, 2, 1, None, None, 8, 1, None, only=("apply_channel_mask", "requantize", "remove_zerodm"))
+
+    fileio.FileWriter.cwrite = counting_cwrite
+    _readers.track = lambda it, **k: it
+    try:
+        with_source(long_file, 0, "L", (1 << 24) + 70001, 2, 8, 64, 400.0, -100.0 / 3.0, 6.4e-5, 58000.123456789)
+        huge_file()
+        with_source(wide_file, 2, "W", 320, 66000, 8, 64, 1500.0, -0.005, 1e-3, 60000.0)
+        with_source(big_blocks((4097, 16385, 70000), (4096, 16384, 65536), 70000), 3, "B8", 80001, 256, 8, 64, 1400.0, -1.0 / 3.0, 2.56e-4, 59999.5)
+        with_source(big_blocks((4097, 16385, 70000), (65536,), None), 4, "B2", 80000, 256, 2, 4, 1500.0, -0.1, 2.56e-4, 59999.5)
+        with_source(big_blocks((16385, 65537), (16384, 65536), None), 5, "B32", 70000, 64, 32, 1000, 1100.0, 0.1, 2.56e-4, 59999.5, dtype=np.uint16)
+        with_source(many_blocks, 6, "M", 200001, 2, 8, 128, 1200.0, -1.0 / 7.0, 1e-3, 60000.0)
+    finally:
+        fileio.FileWriter.cwrite = orig_cwrite
+        _readers.track = orig_track
+        shutil.rmtree(d, ignore_errors=True)
